@@ -270,7 +270,7 @@ func (s *c03State) apply(o c03Op, t *mc.Tr) {
 				bin.busy++
 			}
 		}
-		if tok == nil || tok.IsAcquired() != ok {
+		if ok && (tok == nil || !tok.IsAcquired()) || !ok && tok != nil && tok.IsAcquired() {
 			t.Fail(kn+"/token-iff-ok", "token=%v ok=%v", tok, ok)
 		}
 		if ok {
@@ -623,8 +623,46 @@ func c03Concurrent(lookup bool, limit int, progs []string) *mc.Scenario {
 				return &c
 			}
 			var final *refParts
+			// endMatches: the real strategy's end state is the one this linearization predicts (several
+			// orders may explain the results yet charge different bins: any one that also explains the end
+			// state will do)
+			endMatches := func(r *refParts) bool {
+				var busy int
+				if s.lk != nil {
+					busy = s.lk.BusyCount()
+				} else {
+					busy = s.pr.BusyCount()
+				}
+				if busy != r.total {
+					return false
+				}
+				live := 0
+				for _, b := range r.bins {
+					if b.removed {
+						continue
+					}
+					var bb int
+					if s.lk != nil {
+						bb, _ = s.lk.BinBusyCount(b.name)
+					} else {
+						bb, _ = s.pr.BinBusyCount(live)
+					}
+					live++
+					if bb != b.busy {
+						return false
+					}
+				}
+				return true
+			}
+			var anyOrder *refParts
 			try = func(r *refParts) bool {
 				if len(order) == n {
+					if anyOrder == nil {
+						anyOrder = r
+					}
+					if !endMatches(r) {
+						return false
+					}
 					final = r
 					return true
 				}
@@ -732,8 +770,11 @@ func c03Concurrent(lookup bool, limit int, progs []string) *mc.Scenario {
 			x.Observe("%s", res)
 			x.MarkConflict()
 			if !try(mkref()) {
-				x.Fail("not-linearizable", "no sequential order of the partition model explains the results: %s", res)
-				return
+				if anyOrder == nil {
+					x.Fail("not-linearizable", "no sequential order of the partition model explains the results: %s", res)
+					return
+				}
+				final = anyOrder // the results are explained, the end state is not: report the differences below
 			}
 			// exact bins at the end
 			s.ref = final
